@@ -560,6 +560,11 @@ def gen_bgp(rng, n, tier):
         add(codec, [b.d])
     return out
 
+def kind_of(fam):
+    """families whose NLRI decoder is in the Coq model are compared with the model ('bgp');
+    the others are run on the implementation only and judged by the Spec oracle ('fuzz')"""
+    return 'bgp' if fam in E.ALL_MODELLED else 'fuzz'
+
 def gen_fuzz(rng, n):
     """Families whose NLRI decoders are behind the oracle (MUP, flowspec, flowspec-VPN, LS,
     SR policy, EVPN, RTC): harness only, judged by the Spec oracle; this is what exercises
@@ -576,7 +581,7 @@ def gen_fuzz(rng, n):
         if x < 0.85: return [1, rng.choice([1, 2, 3, 4]), 0, L & 0xff] + body                  # MUP: arch, type16, len
         return rbytes(rng, rng.randint(1, 40))
     for _ in range(n):
-        fam = rng.choice(E.OTHERS)
+        fam = rng.choice(E.OTHERS + E.OTHERS + E.MODELLED_R3)
         ap = rng.random() < 0.25
         codec = {'ext': False, 'two': rng.random() < 0.2, 'nh': False, 'fams': [(E.IPV4, False), (fam, ap)]}
         nl = []
@@ -602,7 +607,7 @@ def gen_fuzz(rng, n):
         d = E.update([], attrs, []).d
         if rng.random() < 0.15:
             d = E.fix_hdr(B(d[:rng.randrange(23, len(d) + 1)])).d
-        out.append({'k': 'fuzz', 'codec': codec, 'chunks': [d]})
+        out.append({'k': kind_of(fam), 'codec': codec, 'chunks': [d]})
     return out
 
 _SEEDS = None
@@ -659,7 +664,7 @@ def gen_fuzz_seeded(rng, n):
             attrs = [E.attr(0x40, 1, [0]), E.attr(0x40, 2, []), E.attr(0x80, 14, E.mp_reach_value(fam, nh, [nl]))]
         else:
             attrs = [E.attr(0x80, 15, E.mp_unreach_value(fam, [nl]))]
-        out.append({'k': 'fuzz', 'codec': codec, 'chunks': [E.update([], attrs, []).d]})
+        out.append({'k': kind_of(fam), 'codec': codec, 'chunks': [E.update([], attrs, []).d]})
     return out
 
 def gen_fuzz_sweep(rng, tier):
@@ -686,7 +691,7 @@ def gen_fuzz_sweep(rng, tier):
                 codec = {'ext': False, 'two': False, 'nh': False, 'fams': [(E.IPV4, False), (fam, False)]}
                 nh = [] if (fam & 0xff) in (133, 134) else [10, 0, 0, 1]
                 attrs = [E.attr(0x40, 1, [0]), E.attr(0x40, 2, []), E.attr(0x80, 14, E.mp_reach_value(fam, nh, [B(v)]))]
-                out.append({'k': 'fuzz', 'codec': codec, 'chunks': [E.update([], attrs, []).d]})
+                out.append({'k': kind_of(fam), 'codec': codec, 'chunks': [E.update([], attrs, []).d]})
     return out
 
 def bgp_complete_for(codec):
